@@ -18,7 +18,9 @@ NON_ACCESSORS = {"__init__", "update_peaks_bounded", "__eq__", "__repr__", "__st
 
 
 def translator_for(prog: Program, f: Func, self_cls: Optional[Class] = None) -> Translator:
-    return Translator(call_hook=pkg_call_hook(prog, f.module, self_cls))
+    T = Translator(call_hook=pkg_call_hook(prog, f.module, self_cls))
+    T.attr_of_bound = True
+    return T
 
 
 def expect(prog: Program, f: Func, src: str, self_cls: Optional[Class] = None, env=None) -> sp.Expr:
